@@ -37,6 +37,7 @@ import (
 	"strconv"
 	"strings"
 	"sync"
+	"sync/atomic"
 	"syscall"
 	"time"
 
@@ -46,6 +47,9 @@ import (
 	rpcfasthttp "github.com/hprose/hprose-golang/v3/rpc/http/fasthttp"
 	"github.com/hprose/hprose-golang/v3/rpc/mock"
 	"github.com/hprose/hprose-golang/v3/rpc/plugins/reverse"
+	rpcsocket "github.com/hprose/hprose-golang/v3/rpc/socket"
+	rpcudp "github.com/hprose/hprose-golang/v3/rpc/udp"
+	rpcws "github.com/hprose/hprose-golang/v3/rpc/websocket"
 	"github.com/valyala/fasthttp"
 	"hv/hvlib"
 )
@@ -65,13 +69,16 @@ type c11Case struct {
 
 type childObs struct {
 	Before        map[string]string `json:"before"`
-	Fault         string            `json:"fault"`          // what the faulty call returned (ok:/err:/hang/callerpanic:) or n/a
-	Raw           string            `json:"raw,omitempty"`  // raw peer: what came back after the malformed bytes (eof/data/timeout)
-	InflightSame  string            `json:"inflight_same"`  // call in flight on the same connection
-	InflightOther string            `json:"inflight_other"` // call in flight on another connection
-	AfterSame     string            `json:"after_same"`     // the same client, after the fault
-	AfterOther    string            `json:"after_other"`    // the other client, after the fault
-	AfterFresh    string            `json:"after_fresh"`    // a new client, after the fault
+	Fault         string            `json:"fault"`              // what the faulty call returned (ok:/err:/hang/callerpanic:) or n/a
+	Raw           string            `json:"raw,omitempty"`      // raw peer: what came back after the malformed bytes (eof/data/timeout)
+	InflightSame  string            `json:"inflight_same"`      // call in flight on the same connection
+	InflightOther string            `json:"inflight_other"`     // call in flight on another connection
+	AfterSame     string            `json:"after_same"`         // the same client, after the fault
+	AfterOther    string            `json:"after_other"`        // the other client, after the fault
+	AfterFresh    string            `json:"after_fresh"`        // a new client, after the fault
+	During        string            `json:"during"`             // the same client, issued from inside the transport's OnClose hook while the faulty connection is torn down (n/a: no teardown)
+	ReqLen        int               `json:"req_len,omitempty"`  // encoded length of the sized request, as the service side saw or the client sent it
+	RespLen       int               `json:"resp_len,omitempty"` // encoded length of the sized response, as the service produced it
 	Notes         []string          `json:"notes,omitempty"`
 	Done          bool              `json:"done"`
 }
@@ -206,7 +213,7 @@ func main() {
 var (
 	obsMu  sync.Mutex
 	theObs = childObs{Before: map[string]string{}, Fault: "n/a", InflightSame: "n/a", InflightOther: "n/a",
-		AfterSame: "n/a", AfterOther: "n/a", AfterFresh: "n/a"}
+		AfterSame: "n/a", AfterOther: "n/a", AfterFresh: "n/a", During: "n/a"}
 )
 
 func note(format string, a ...interface{}) {
@@ -241,7 +248,7 @@ func childMain(line []byte) {
 	}
 	var err error
 	switch {
-	case c.Fault == "provider-panic":
+	case c.Fault == "provider-panic" || (c.Side == "client" && c.Fault == "hostile-panic-value"):
 		err = scenarioProvider(&c)
 	case c.Side == "server" && isRawFault(c.Fault):
 		err = scenarioServerRaw(&c)
@@ -306,8 +313,55 @@ func (e *ptrErr) Error() string { return e.msg } // panics on a nil receiver
 
 var panicKind = "string"
 
+// values whose own methods misbehave when the recovered panic is formatted
+type errPanics struct{}
+
+func (errPanics) Error() string { panic("Error() of the panic value panics") }
+
+type errRuntime struct{ a []int }
+
+func (e errRuntime) Error() string { return strconv.Itoa(e.a[len(e.a)+2]) }
+
+type strPanics struct{}
+
+func (strPanics) String() string { panic("String() of the panic value panics") }
+
+type errDeep struct{ d int }
+
+func (e errDeep) Error() string {
+	if e.d == 0 {
+		return "bottom"
+	}
+	return fmt.Sprintf("<%v>", errDeep{e.d - 1})
+}
+
+type errSelf struct{}
+
+func (e errSelf) Error() string { panic(e) } // panics with a value that panics again: defeats fmt (and net/http)
+
+type errNested struct{}
+
+func (errNested) Error() string { panic(errPanics{}) }
+
 func panicValue(kind string) interface{} {
 	switch kind {
+	case "hostile-error-nilptr":
+		var e *ptrErr
+		return e
+	case "hostile-error-panics":
+		return errPanics{}
+	case "hostile-error-runtime":
+		return errRuntime{}
+	case "hostile-stringer-panics":
+		return strPanics{}
+	case "hostile-error-pointer-panics":
+		return &errPanics{}
+	case "hostile-deep-format":
+		return errDeep{300}
+	case "nested-hostile":
+		return errNested{}
+	case "self-hostile":
+		return errSelf{}
 	case "string":
 		return "boom-string"
 	case "error":
@@ -419,7 +473,19 @@ func startReal(tr string, pool bool, c *c11Case) (*realServer, error) {
 		if bytes.Contains(request, []byte("IO-PLUGIN-BOOM")) {
 			doPanic(panicKind)
 		}
-		return next(ctx, request)
+		sized := bytes.Contains(request, []byte("\"big\"")) || bytes.Contains(request, []byte("qqqqqqqq"))
+		if sized {
+			obsMu.Lock()
+			theObs.ReqLen = len(request)
+			obsMu.Unlock()
+		}
+		resp, err := next(ctx, request)
+		if sized {
+			obsMu.Lock()
+			theObs.RespLen = len(resp)
+			obsMu.Unlock()
+		}
+		return resp, err
 	})
 	if c != nil && c.Fault == "missing-method-panic" {
 		svc.AddMissingMethod(func(name string, args []interface{}) ([]interface{}, error) {
@@ -611,6 +677,7 @@ func scenarioServerAPI(c *c11Case) error {
 		return err
 	}
 	a, b := newClient(s.url), newClient(s.url)
+	slowClose(a, func() string { return echo(a, "during") })
 	theObs.Before["same"] = echo(a, "before-a")
 	theObs.Before["other"] = echo(b, "before-b")
 	ia, ib := make(chan string, 1), make(chan string, 1)
@@ -619,7 +686,7 @@ func scenarioServerAPI(c *c11Case) error {
 	waitEntered(s.entered, 2, "slow")
 	var fault string
 	switch c.Fault {
-	case "service-panic":
+	case "service-panic", "hostile-panic-value":
 		fault = call(a, "boom", "", c.Variant)
 	case "invoke-plugin-panic":
 		fault = echo(a, "INVOKE-PLUGIN-BOOM")
@@ -656,11 +723,16 @@ func scenarioServerAPI(c *c11Case) error {
 			return fmt.Errorf("unknown decode-panic variant %q", c.Variant)
 		}
 	case "oversize-request":
-		fault = echo(a, strings.Repeat("q", 5000))
+		n := 5000
+		if sz, ok := sizeVariant(c.Variant); ok {
+			n = argLenForRequest(sz)
+		}
+		recordRequestLength(a)
+		fault = echo(a, strings.Repeat("q", n))
 	case "oversize-response":
 		n := 70000
-		if c.Variant == "just-over" {
-			n = 65495 // body = Rs65495"..."z = 65507 bytes > 65499
+		if sz, ok := sizeVariant(c.Variant); ok {
+			n = resultLenForResponse(sz)
 		}
 		fault = call(a, "big", "", n)
 	default:
@@ -673,6 +745,7 @@ func scenarioServerAPI(c *c11Case) error {
 	theObs.AfterSame = echo(a, "after-a")
 	theObs.AfterOther = echo(b, "after-b")
 	theObs.AfterFresh = echo(newClient(s.url), "after-c")
+	collectDuring()
 	return nil
 }
 
@@ -1250,6 +1323,7 @@ func scenarioClientScripted(c *c11Case) error {
 		return err
 	}
 	a, b := newClient(s.url), newClient(h.url)
+	slowClose(a, func() string { return call(a, "echo", "ok", "during") })
 	theObs.Before["same"] = call(a, "echo", "ok", "before-a")
 	theObs.Before["other"] = echo(b, "before-b")
 	ia, ib := make(chan string, 1), make(chan string, 1)
@@ -1265,6 +1339,7 @@ func scenarioClientScripted(c *c11Case) error {
 	theObs.AfterSame = call(a, "echo", "ok", "after-a")
 	theObs.AfterOther = echo(b, "after-b")
 	theObs.AfterFresh = call(newClient(s.url), "echo", "ok", "after-c")
+	collectDuring()
 	return nil
 }
 
@@ -1276,6 +1351,7 @@ func scenarioClientOversize(c *c11Case) error {
 		return err
 	}
 	a, b := newClient(h.url), newClient(h.url)
+	slowClose(a, func() string { return echo(a, "during") })
 	theObs.Before["same"] = echo(a, "before-a")
 	theObs.Before["other"] = echo(b, "before-b")
 	ia, ib := make(chan string, 1), make(chan string, 1)
@@ -1283,9 +1359,10 @@ func scenarioClientOversize(c *c11Case) error {
 	go func() { ib <- call(b, "slow", "slow:b", "b") }()
 	waitEntered(h.entered, 2, "slow")
 	n := 70000
-	if c.Variant == "just-over" {
-		n = 65480 // Cs4"echo"a1{s65480"..."}z = 65506 bytes > 65499
+	if sz, ok := sizeVariant(c.Variant); ok {
+		n = argLenForRequest(sz)
 	}
+	recordRequestLength(a)
 	theObs.Fault = echo(a, strings.Repeat("q", n))
 	h.releaseAll()
 	theObs.InflightSame = collect(ia)
@@ -1293,6 +1370,7 @@ func scenarioClientOversize(c *c11Case) error {
 	theObs.AfterSame = echo(a, "after-a")
 	theObs.AfterOther = echo(b, "after-b")
 	theObs.AfterFresh = echo(newClient(h.url), "after-c")
+	collectDuring()
 	return nil
 }
 
@@ -1388,4 +1466,84 @@ func panicKindOr(v string) string {
 	return v
 }
 
-var _ = strconv.Itoa
+// ---------------------------------------------------------------- sized messages
+
+// variant "size=N": the ENCODED request (resp. response) shall be N bytes long
+func sizeVariant(v string) (int, bool) {
+	if strings.HasPrefix(v, "size=") {
+		n, err := strconv.Atoi(v[5:])
+		return n, err == nil
+	}
+	return 0, false
+}
+
+// Cs4"echo"a1{s<n>"q...q"}z : 17 bytes + the digits of n + n
+func argLenForRequest(total int) int {
+	for n := total; n > 0; n-- {
+		if 17+len(strconv.Itoa(n))+n == total {
+			return n
+		}
+	}
+	return 1
+}
+
+// Rs<n>"R...R"z : 5 bytes + the digits of n + n
+func resultLenForResponse(total int) int {
+	for n := total; n > 0; n-- {
+		if 5+len(strconv.Itoa(n))+n == total {
+			return n
+		}
+	}
+	return 1
+}
+
+// the encoded length of what the client really sends, measured on the client's own IO chain
+func recordRequestLength(c *core.Client) {
+	c.Use(func(ctx context.Context, request []byte, next core.NextIOHandler) ([]byte, error) {
+		if bytes.Contains(request, []byte("qqqqqqqq")) {
+			obsMu.Lock()
+			theObs.ReqLen = len(request)
+			obsMu.Unlock()
+		}
+		return next(ctx, request)
+	})
+}
+
+// ---------------------------------------------------------------- teardown window
+
+var duringCh = make(chan string, 1)
+var duringFired int32
+
+// slowClose installs a slow OnClose hook on the client's multiplexing transport.  When the client tears a
+// connection down, the hook issues one sentinel call on the same client (from its own goroutine) and keeps the
+// teardown busy for 300 ms, so that the sentinel falls into the window in which the dying connection is closed
+// but its pending calls are not failed yet.
+func slowClose(c *core.Client, sentinel func() string) {
+	fire := func() {
+		if atomic.CompareAndSwapInt32(&duringFired, 0, 1) {
+			go func() { duringCh <- sentinel() }()
+		}
+		time.Sleep(300 * time.Millisecond)
+	}
+	if t, ok := c.GetTransport("socket").(*rpcsocket.Transport); ok && t != nil {
+		t.OnClose = func(net.Conn) { fire() }
+	}
+	if t, ok := c.GetTransport("udp").(*rpcudp.Transport); ok && t != nil {
+		t.OnClose = func(net.Conn) { fire() }
+	}
+	if t, ok := c.GetTransport("websocket").(*rpcws.Transport); ok && t != nil {
+		t.OnClose = func(*websocket.Conn) { fire() }
+	}
+}
+
+func collectDuring() {
+	if atomic.LoadInt32(&duringFired) == 0 {
+		return
+	}
+	select {
+	case r := <-duringCh:
+		theObs.During = r
+	case <-time.After(callGuard + time.Second):
+		theObs.During = "hang"
+	}
+}
